@@ -116,9 +116,62 @@ fn twins(h: &History) -> Vec<(&'static str, History)> {
     out
 }
 
+/// Records whose content depends on when they are produced: each carries the running offset at which it starts, read from
+/// a counter that the previous record's `write_to` advanced. Written one at a time, or as a batch through a lazy iterator
+/// (which the builder has to consume item by item: produce, encode, produce, encode), they come out the same.
+fn lazy_batch_relation(n: usize, salt: u8) -> Result<(), (Vec<u8>, Vec<u8>)> {
+    use ppp::v2::{Builder, WriteToHeader, Writer};
+    use std::cell::Cell;
+    struct Rec<'a> {
+        start: usize,
+        len: usize,
+        pos: &'a Cell<usize>,
+    }
+    impl<'a> WriteToHeader for Rec<'a> {
+        fn write_to(&self, w: &mut Writer) -> std::io::Result<usize> {
+            let mut out = (self.start as u32).to_be_bytes().to_vec();
+            out.resize(4 + self.len, 0x2e);
+            std::io::Write::write_all(w, &out)?;
+            self.pos.set(self.pos.get() + out.len());
+            Ok(out.len())
+        }
+    }
+    let lens: Vec<usize> = (0..n).map(|i| (i * 7 + salt as usize) % 11).collect();
+    let one = Cell::new(0usize);
+    let mut b = Builder::new(0x21, 0x00);
+    for &len in &lens {
+        b = b.write_payload(Rec { start: one.get(), len, pos: &one }).map_err(|_| (vec![], vec![]))?;
+    }
+    let single = b.build().map_err(|_| (vec![], vec![]))?;
+    let two = Cell::new(0usize);
+    let mut it = lens.iter();
+    let batch = Builder::new(0x21, 0x00)
+        .write_payloads(std::iter::from_fn(|| it.next().map(|&len| Rec { start: two.get(), len, pos: &two })))
+        .and_then(|b| b.build())
+        .map_err(|_| (single.clone(), vec![]))?;
+    if single == batch {
+        Ok(())
+    } else {
+        Err((single, batch))
+    }
+}
+
 pub fn judge(h: &History, st: &mut Stats) -> Verdict {
     st.eval();
     let entry = "v2::Builder call history";
+    // batch vs one at a time for payloads produced lazily (independent of the history; its length picks the batch size)
+    if st.evals % 16 == 0 {
+        let n = 2 + h.ops.len() % 6 + if h.ops.len() % 5 == 0 { 4200 } else { 0 };
+        if let Ok(Err((single, batch))) = crate::engine::guard(|| lazy_batch_relation(n, h.ops.len() as u8)) {
+            return Err(Fail::new(
+                "batch-differs-from-single-writes:lazy-records",
+                format!("lazy-batch-of-{}", if n > 4000 { "thousands" } else { "few" }),
+                "Builder::write_payloads(lazy iterator) vs write_payload, item by item",
+                format!("the same {} bytes either way", single.len()),
+                format!("{} bytes as a batch; first difference at byte {}", batch.len(), single.iter().zip(batch.iter()).position(|(a, b)| a != b).unwrap_or(single.len().min(batch.len()))),
+            ));
+        }
+    }
     let trace = bld::execute(h);
     let built = match &trace.build {
         Some(Ok(b)) => b,
